@@ -26,7 +26,7 @@ Definition d07 (op : nat) (t : itree) : itree :=
     | Some n, Some impl =>
       L [Ib (valid_dfa impl); In_ (size impl); enc_diff' (nfa_dfa_diff n impl);
          enc_res (fun m => L [In_ (size m); enc_diff' (dfa_diff impl m); Ib (valid_dfa m);
-                              enc_res In_ (bind (minify m) (fun r => Ok (size r)))]) (determinize_m n)]
+                              enc_res (fun r => L [In_ (size r); Ib (d_partial r)]) (to_partial_min m)]) (determinize_m n)]
     | _, _ => bad_input
     end
   | 2, L [td; ti] =>   (* NFA.from_dfa *)
